@@ -280,9 +280,9 @@ def history_stats(hs):
     return stats, len(distinct)
 
 
-def run_property(rep, prop, cone, hs, oracles, rule, tie=True, profiles=("debug", "release"), known_match=None):
+def run_property(rep, prop, cone, hs, oracles, rule, tie=True, profiles=("debug", "release"), known_match=None, modules=None):
     """oracles: list of functions r -> failure|None (or (failure, notes)); returns nothing, fills rep."""
-    proof_ok, details = common.proof_layer(rep, prop, cone, extra_targets=["theories/Extract/Extract.vo"])
+    proof_ok, details = common.proof_layer(rep, modules or prop, cone, extra_targets=["theories/Extract/Extract.vo"])
     if not build(rep):
         return
     fails, ties, notes = [], [], []
